@@ -627,6 +627,29 @@ class _CutStream:
         pass
 
 
+class _HoldStream:
+    """The first write to the report stream passes the observable point
+    'report.stderr': the child has closed its stdout by then, the report is
+    still to come (a child whose stderr ends later than its stdout)."""
+
+    def __init__(self, real, world):
+        self.real = real
+        self.world = world
+        self.passed = False
+
+    def write(self, s):
+        if not self.passed:
+            self.passed = True
+            try:
+                self.world.point('report.stderr')
+            except Exception:
+                pass
+        return self.real.write(s)
+
+    def __getattr__(self, k):
+        return getattr(self.real, k)
+
+
 @on_import('zope.testrunner.process')
 def _patch_process(mod):
     cls = mod.SubProcess
@@ -637,6 +660,8 @@ def _patch_process(mod):
         try:
             w = vworld_rt._load_world()
             w.point('report')
+            if any(h.get('point') == 'report.stderr' for h in w.holds):
+                self.original_stderr = _HoldStream(self.original_stderr, w)
         except Exception:
             pass
         cut = os.environ.get('ZTR_REPORT_CUT')
